@@ -155,6 +155,23 @@ def cases(ctx, tier):
                 p = predict_mul(un, vn, T)
                 mulcase('mpn_mul', un, vn, 0, 'ones', 'unbal-' + p.split(':')[-1])
                 mulcase('mpn_mul', un, vn, 0, None, 'unbal-' + p.split(':')[-1])
+    # carry chains across a whole strip: a slice c of u with c*v = -1 (mod B^k), so that adding the
+    # strip product back ripples a carry through every limb of the slice
+    for _ in range(40 if quick else 400):
+        if rng.getrandbits(1):
+            vn = rng.randrange(2, max(3, T.get('MUL_KARATSUBA_THRESHOLD', 17))); k = 500; un = rng.choice([1001, 1200, 1500, 1700])
+        else:
+            vn = rng.randrange(T.get('MUL_KARATSUBA_THRESHOLD', 17), 40); k = vn; un = rng.randrange(3 * vn + 1, 6 * vn)
+        v = limbs_value(rng, vn, 'uniform') | 1 | (1 << (64 * vn - 1))
+        c = (-pow(v, -1, 1 << (64 * k))) % (1 << (64 * k))
+        u = limbs_value(rng, un, 'uniform')
+        nsl = un // k
+        for j in range(nsl):
+            if rng.random() < 0.6:
+                u = (u & ~(((1 << (64 * k)) - 1) << (64 * k * j))) | (c << (64 * k * j))
+        u |= 1 << (64 * un - 1)
+        big = un > EXACT
+        out.append(('%s %x %s %x %s 0' % ('mpn_mul_big' if big else 'mpn_mul', un, hx(u), vn, hx(v)), 'strip-carry-' + predict_mul(un, vn, T).split(':')[-1]))
     for _ in range(150 if quick else 1200):
         un = int(2 ** rng.uniform(1, 10.5 if quick else 11.5)); vn = rng.randrange(1, un + 1)
         mulcase('mpn_mul', un, vn, 0, None, 'rand-' + predict_mul(un, vn, T).split(':')[-1])
@@ -179,8 +196,16 @@ def cases(ctx, tier):
         fsz += [(n - 1, n - 1), (n, n)]
     for (a, b) in fsz:
         if a < 128: continue
-        for shape in ['ones', None]:
+        for shape in ['ones', None, 'onebit']:
             mulcase('mpn_mul_fft_main', a, b, 0, shape, 'fft-main')
+    # single-bit / sparse operands at FFT sizes: pointwise products hit the residue 2^(nw) = -1
+    for _ in range(24 if quick else 300):
+        a = rng.randrange(F, F + 600); b = rng.choice([a, a, rng.randrange(max(F // 3 + 1, 2 * F - a + 1), a + 1)])
+        sh = rng.choice(['onebit', 'onebit', 'sparse'])
+        if a == b and rng.getrandbits(1):
+            mulcase('mpn_sqr', max(a, SF + 1), max(a, SF + 1), 1, sh, 'fft-sparse-sqr')
+        else:
+            mulcase('mpn_mul', a, b, 0, sh, 'fft-sparse')
     for n in (F, F + 1):
         mulcase('mpn_mul_n', n, n, 0, 'ones', 'fft-via-mul_n')
         mulcase('mpn_mul', n + 500, n - 400, 0, 'ones', 'fft-unbal')
